@@ -162,4 +162,65 @@ theorem rev_ind {α : Type} {P : List α → Prop} (hnil : P []) (snoc : ∀ l a
   | nil => exact hnil
   | cons a t ih => rw [List.reverse_cons]; exact snoc _ _ ih
 
+/-! ### batches -/
+
+theorem bmod_length (f : List Hdr → List Hdr) (b : Batch) (i : Nat) : (bmod f b i).length = b.length := by
+  induction b generalizing i with
+  | nil => simp [bmod]
+  | cons h rs ih => cases i <;> simp [bmod, ih]
+
+theorem bmod_get_self (f : List Hdr → List Hdr) (b : Batch) (i : Nat) : (bmod f b i)[i]? = (b[i]?).map f := by
+  induction b generalizing i with
+  | nil => simp [bmod]
+  | cons h rs ih => cases i <;> simp [bmod, ih]
+
+theorem bmod_get_other (f : List Hdr → List Hdr) (b : Batch) (i j : Nat) (hne : j ≠ i) :
+    (bmod f b i)[j]? = b[j]? := by
+  induction b generalizing i j with
+  | nil => simp [bmod]
+  | cons h rs ih =>
+    cases i with
+    | zero =>
+      cases j with
+      | zero => exact absurd rfl hne
+      | succ j => simp [bmod]
+    | succ i =>
+      cases j with
+      | zero => simp [bmod]
+      | succ j => simp only [bmod, List.getElem?_cons_succ]; exact ih i j (fun h => hne (by rw [h]))
+
+theorem othersUntouched_bmod (f : List Hdr → List Hdr) (b : Batch) (i : Nat) :
+    othersUntouched i (bobs b) (bobs (bmod f b i)) = true := by
+  induction b generalizing i with
+  | nil => simp [bmod, bobs, othersUntouched]
+  | cons h rs ih =>
+    cases i with
+    | zero => simp [bmod, bobs, othersUntouched]
+    | succ i =>
+      have := ih i
+      simp only [bobs] at this
+      simp [bmod, bobs, othersUntouched, this]
+
+theorem appHdrs_set_prop (h : List Hdr) (k v : Bytes) (hk : isPropKey k = true) : appHdrs (cset h k v) = appHdrs h := by
+  induction h with
+  | nil => simp [cset, appHdrs, hk]
+  | cons x xs ih =>
+    simp only [cset]
+    split
+    · rename_i hx
+      simp only [appHdrs] at ih ⊢
+      simp [hx, hk]
+    · simp only [appHdrs] at ih ⊢
+      simp [List.filter_cons, ih]
+
+theorem length_set (h : List Hdr) (k v : Bytes) :
+    h.length ≤ (cset h k v).length ∧ (cset h k v).length ≤ h.length + 1 := by
+  induction h with
+  | nil => simp [cset]
+  | cons x xs ih =>
+    simp only [cset]
+    split
+    · simp
+    · simp only [List.length_cons]; omega
+
 end Proof.C37
